@@ -32,9 +32,19 @@ def substitute(prog, idx, depth):
     res = progressions.substitute(p, idx, depth)
     return [res, p]
 
+def _after_edit(f, k):
+    """the answer AFTER a caller has edited the chords of an earlier answer (reversed, a name appended, one overwritten)"""
+    r = f(k)
+    for ch in r:
+        ch.reverse(); ch.append("X"); ch[0] = "Y"
+    del r[2:]
+    return copy.deepcopy(f(k))
+
 IMPL = {
     "chords.triads": lambda k: copy.deepcopy(chords.triads(k)),
     "chords.sevenths": lambda k: copy.deepcopy(chords.sevenths(k)),
+    "edited:chords.triads": lambda k: _after_edit(chords.triads, k),
+    "edited:chords.sevenths": lambda k: _after_edit(chords.sevenths, k),
     "chords.function": lambda name, k: list(getattr(chords, name)(k)),
     "prog.parse_string": progressions.parse_string,
     "prog.tuple_to_string": lambda r, a, sf: progressions.tuple_to_string((r, a, sf)),
@@ -66,6 +76,8 @@ def cases(tier, rng):
     for k in ALL:
         yield Case("chords.triads", [k], "triads")
         yield Case("chords.sevenths", [k], "sevenths")
+        yield Case("edited:chords.triads", [k], "triads/after-edit", model=False)
+        yield Case("edited:chords.sevenths", [k], "sevenths/after-edit", model=False)
         for i, f in enumerate(FUNCS):
             yield Case("chords.function", [f, k], "function", kind=("fn", i, False))
             yield Case("chords.function", [f + "7", k], "function7", kind=("fn", i, True))
@@ -145,6 +157,8 @@ def semi_of(numeral_str):
 def oracle(c, obs):
     fn, a = c["fn"], c["args"]
     kind = c.get("kind", ())
+    if fn.startswith("edited:"):
+        fn = fn[len("edited:"):]
     if fn == "chords.triads":
         return None if obs == spec_triads(a[0]) else "triads are not stacks of thirds inside the key's notes"
     if fn == "chords.sevenths":
